@@ -22,7 +22,9 @@ import vlib as v
 
 SITES = ["host-udp", "host-udpmux", "host-tcpmux", "srflx-own", "srflx-mux", "srflx-mapped", "relay"]
 FAULTS = ["none", "listen-error", "dup"]
-ALL_DEFECTS = ["srflxNoCloseOnReject", "srflxWatcherCloses", "handoffRace", "closeSkipsOld"]
+# edges where the tree (as of the fix: commits 8a84c13 and 264d3f6) still departs from the property; the three repaired ones
+# ("srflxNoCloseOnReject" F-C09, "srflxWatcherCloses" F-C09b, "handoffRace" F-C18c) stay available in Gather.tla
+ALL_DEFECTS = ["closeSkipsOld"]
 C09_PREDS = ["CloseAtMostOnce", "NoLeakAfterClose", "NoLeakAfterRestart", "ImmediateOnReject", "ReleasedOnRemoval", "NoHang"]
 C18_CYCLE_PREDS = ["OnceNewGatheringComplete", "NilIffComplete", "RefusedUnlessNew", "NoOverlap", "RestartIsolates", "NoHang"]
 C18_SET_PREDS = ["SoundType", "SoundNet", "SoundAddr", "SoundPort", "SoundMDNS", "Complete", "NoError"]
